@@ -85,9 +85,10 @@ def d_is_dimensionless(a):
 
 
 def d_wf(a):
-    """well-formed declared dimension: an AnyDimension instance is the unit vector of its own name slot"""
+    """ASSUMED: a dimension object is the AnyDimension instance exactly when its dependencies are {any_dimension: 1}
+    (the wildcard is only ever used as a declared dimension, never multiplied into another Dimension object)"""
     v = dvec(a)
-    return z3.Implies(d_anycls(a), z3.And([x == 0 for x in v[:8]] + [v[8] == 1]))
+    return d_anycls(a) == z3.And([x == 0 for x in v[:8]] + [v[8] == 1])
 
 
 # ------------------------------------------------------------------------------------------------ Val
